@@ -83,6 +83,7 @@ type RunCfg struct {
 	strict       bool                       // strict (len, not cap) bounds on input-derived slices
 	maxDepth     int
 	useSummary   map[string]bool // functions whose contract is used instead of the body
+	bytesLayer   bool            // abstract byte-string values and crypto function symbols (bytes.go)
 }
 
 func newRunCfg() *RunCfg {
@@ -132,6 +133,12 @@ type Exec struct {
 	aesNewHook    func(reach, ref *Term, key SliceV)
 	cbcNewHook    func(reach, ref, block *Term, iv SliceV, dir int64)
 	cbcCryptHook  func(reach, ref *Term, src SliceV) *Term
+	bytesCache    map[bytesKey]*Term
+	valueRefs     map[int]*Term
+	valueLens     map[int]*Term
+	extSeen       map[string]map[int]bool
+	extList       map[string][]*Term
+	cbcUses       []cbcUse
 }
 
 func newExec(P *Program, cfg *RunCfg) *Exec {
@@ -139,6 +146,9 @@ func newExec(P *Program, cfg *RunCfg) *Exec {
 		names: map[string]int{}, ghost: map[string]Value{}, inFuncs: map[string]bool{}, summariesUsed: map[string]bool{}}
 	ex.mem = newMem(ex)
 	ex.ctrBase = Int(0)
+	if cfg != nil && cfg.bytesLayer {
+		ex.installBytesLayer()
+	}
 	return ex
 }
 
